@@ -12,6 +12,7 @@ import (
 	"os"
 	"sort"
 	"sync"
+	"time"
 )
 
 // Keyer is implemented (in overlay files) by pointer types that are used as
@@ -164,6 +165,13 @@ func Torn(name string, data []byte, perm os.FileMode) {
 		}
 	}
 }
+
+// ClockOffset is added to the wall clock by Now (files rewritten with
+// "time=").  The harness advances it where mrp would have waited.
+var ClockOffset time.Duration
+
+// Now replaces time.Now in rewritten files.
+func Now() time.Time { return time.Now().Add(ClockOffset) }
 
 // Getpid is os.Getpid unless the explorer overrides it.
 func Getpid() int {
